@@ -147,3 +147,32 @@ Definition range_loop {A S R} (body : Z -> A -> S -> step S R) (l : list A) (s :
 (* ---------- datalog.Term as dterm ---------- *)
 (* an element of a Set put back into a Set: the model's sets hold atoms *)
 Definition box_atom (a : datom) : dterm := DA a.
+
+(* ---------- stage E: element assignment, descending three-clause loop ---------- *)
+(* l[i] = v: the new contents of l; None = index out of range *)
+Fixpoint set_idx_from {A} (l : list A) (i : Z) (v : A) : option (list A) :=
+  match l with
+  | [] => None
+  | x :: l' =>
+      if i =? 0 then Some (v :: l')
+      else match set_idx_from l' (i - 1) v with Some r => Some (x :: r) | None => None end
+  end.
+Definition set_idx {A} (l : list A) (i : Z) (v : A) : option (list A) :=
+  if i <? 0 then None else set_idx_from l i v.
+
+(* for i := start; i >= 0; i-- { body } where the body does not assign i: the body runs
+   for i = start, start-1, ..., 0 (start+1 times; not at all when start < 0).  i-- never
+   wraps (i >= 0 before it).  [continue] = Continue (the post statement runs), [break] =
+   Break, return / panic = Done. *)
+Fixpoint down_from {S R} (body : Z -> S -> step S R) (n : nat) (i : Z) (s : S) : step S R :=
+  match n with
+  | O => Continue s
+  | Datatypes.S n' =>
+      match body i s with
+      | Continue s' => down_from body n' (i - 1) s'
+      | Break s' => Break s'
+      | Done r => Done r
+      end
+  end.
+Definition down_loop {S R} (body : Z -> S -> step S R) (start : Z) (s : S) : step S R :=
+  down_from body (Z.to_nat (start + 1)) start s.
